@@ -630,10 +630,19 @@ def sign_(a):
     return z3.If(a > 0, one, z3.If(a < 0, -one, zero))
 
 
+FINITE_HOOK = [None]   # engine installs callable(flag_term) -> True when the flag is provably false on this path
+
+
 def to_int(a):
     """float -> int conversion (truncation toward zero); int stays."""
     if isinstance(a, XR):
-        raise Unsupported("conversion of a possibly non-finite value to an integer")
+        flags = bor(a.nan, bor(a.pinf, a.ninf))
+        if is_z(flags) and FINITE_HOOK[0] is not None and FINITE_HOOK[0](flags):
+            a = a.val
+        elif not is_z(flags) and not flags:
+            a = a.val
+        else:
+            raise Unsupported("conversion of a possibly non-finite value to an integer")
     a = as_num(a)
     if not is_z(a):
         return int(a) if not isinstance(a, Fraction) else math.trunc(a)
